@@ -28,7 +28,7 @@ pub struct History {
     pub steps: Vec<Step>,
 }
 
-fn step() -> BoxedStrategy<Step> {
+pub fn step() -> BoxedStrategy<Step> {
     (
         any::<bool>(),
         prop_oneof![3 => Just(vec![]), 3 => proptest::collection::vec(any::<u16>(), 1..3)],
@@ -191,8 +191,11 @@ pub fn step_case(s: &Step) -> Case {
         defects.retain(|d| *d != BothCarriers);
     }
     super::c13::reduce_signature_defects(&mut defects);
+    if defects.contains(&NoCarrier) || defects.contains(&BothCarriers) {
+        defects.retain(|d| *d != BothCarriersEmptyAlgorithm);
+    }
     if s.req.query_carrier {
-        defects.retain(|d| *d != ParamNoEquals);
+        defects.retain(|d| *d != ParamNoEquals && *d != BothCarriersEmptyAlgorithm);
     }
     let mut case = build(&s.req, &defects);
     case.prov.ready_pending = s.ready_pending;
